@@ -1,4 +1,21 @@
+(* C03 open findings expressible in the model: finite data, NaN forecast.  The model agrees with
+   the real code on these programs in every run (correspondence); witnesses by computation. *)
 From Coq Require Import ZArith QArith List Bool Lia.
 Require Import SkV.Lib.Base SkV.Lib.ZRange SkV.C11.Model SkV.C03.Model.
 Import ListNotations.
 Open Scope Z_scope.
+
+Definition q (z : Z) : oq := Some (inject_Z z).
+
+(* F-C03-2: drift fitted on a single observation: window_length_ = 1, every forecast is NaN *)
+Lemma drift_single_observation_refuted :
+  exists s h, ys s = [q 5] /\ h = Rel [1; 2] /\
+    leaf_values (FNaive SDrift 1 None) s (fit_state s) h = Ok [None; None].
+Proof. exists {| t0 := 0; ys := [q 5] |}, (Rel [1; 2]). repeat split. Qed.
+
+(* F-C03-4: seasonal mean with the default window on a series shorter than one season is accepted
+   by fit and forecasts NaN for the seasons without an observation *)
+Lemma seasonal_mean_short_series_refuted :
+  exists s h, ys s = [q 1; q 2] /\ h = Rel [1; 2; 3] /\
+    leaf_values (FNaive SMean 4 None) s (fit_state s) h = Ok [None; None; Some (1 / 1)%Q].
+Proof. exists {| t0 := 0; ys := [q 1; q 2] |}, (Rel [1; 2; 3]). repeat split. Qed.
